@@ -845,6 +845,8 @@ def stream_ops(ctx):
         if i % 40 == 0:
             dg = DagGen(rng, share=rng.choice([0.15, 0.3, 0.5]))
         ops_case(ctx, B, rng, dg)
+        if i < 2 and dg.pool:
+            ctx.sample({"dag_term": wstr(dg.pool[-1][0])[:400]})
         ctx.count("shared-subobject-reuses", dg.nshared)
         dg.nshared = 0
         if len(B.lines) > 20000:
@@ -1158,7 +1160,7 @@ def shrink_script(script, limit=400):
 def stream_hist(ctx):
     rng = ctx.rng("hist")
     B = Batch(ctx, "b")
-    nh = ctx.scale(300, 6000)
+    nh = ctx.scale(300, 4000)
     ntrace_err = 0
     for hi in range(nh):
         script = gen_script(rng, rng.randint(10, 45))
